@@ -104,7 +104,7 @@ def tree_digest(path):
             p = os.path.join(root, f)
             b = open(p, 'rb').read()
             if f == 'config.ini':
-                b = b'\n'.join(l for l in b.split(b'\n') if not l.startswith(b'uuid'))
+                b = b'\n'.join(l for l in b.split(b'\n') if not (l.startswith(b'uuid') or l.startswith(b'filename')))
             out[os.path.relpath(p, path)] = hashlib.sha256(b).hexdigest()
     return out
 
@@ -130,6 +130,17 @@ def check_determinism(run, case):
             diff = [k for k in set(digs[0]) | set(digs[1]) if digs[0].get(k) != digs[1].get(k)]
             run.violation(f'two trainings of the same list/options differ in {sorted(diff)[:5]}', case, observed=sorted(diff)); return
         run.ev('determinism_pairs')
+        # the in-process driver used by the other trainer-side checks must produce what the real CLI produces
+        if case['max_len'] == 21:
+            nm2, p2, res2 = trained.train_case(case, 'c06ip')
+            try:
+                if res2.ok and tree_digest(p2) != digs[0]:
+                    d2 = tree_digest(p2)
+                    diff = sorted(k for k in set(d2) | set(digs[0]) if d2.get(k) != digs[0].get(k))
+                    run.violation(f'ruleset trained through trainer.py differs from the one trained by run_trainer in-process in {diff[:5]}', case, observed=diff); return
+                run.ev('cli_vs_inprocess_trainings')
+            finally:
+                repo.drop_rules(nm2)
     finally:
         os.remove(tf)
         for nm in names:
